@@ -114,14 +114,23 @@ class Screen:
                         self.buffer_ctor = fn
         # reporting routine, dirty set
         self.changes_fn = self.gc_fn = None
-        for cs in E.call_sites(WD.VT_FEED_STR):
-            if not cs.local:
+        todo = [WD.VT_FEED_STR]
+        seen_v = set()
+        while todo:
+            vf = todo.pop()
+            if vf in seen_v:
                 continue
-            out = (F.fns.get(cs.callee, {}).get("output") or {}).get("s", "")
-            if out == "alloc::vec::Vec<usize>":
-                self.changes_fn = cs.callee
-            if "dyn core::iter::traits::iterator::Iterator" in out:
-                self.gc_fn = cs.callee
+            seen_v.add(vf)
+            for cs in E.call_sites(vf):
+                if not cs.local:
+                    continue
+                out = (F.fns.get(cs.callee, {}).get("output") or {}).get("s", "")
+                if out == "alloc::vec::Vec<usize>" and self._impl_of(cs.callee) != WD.VT:
+                    self.changes_fn = cs.callee
+                if "dyn core::iter::traits::iterator::Iterator" in out and self._impl_of(cs.callee) != WD.VT:
+                    self.gc_fn = cs.callee
+                if self._impl_of(cs.callee) == WD.VT and cs.callee != WD.VT_FEED:
+                    todo.append(cs.callee)        # a private helper of Vt (shared epilogue)
         if not self.changes_fn or not self.gc_fn:
             raise WD.AnchorError("cannot derive the change-reporting / gc routines from Vt::feed_str")
         df = {p[1] for p in E.summaries[self.changes_fn].W if p[0] == "arg1" and len(p) >= 2}
@@ -686,3 +695,62 @@ def norm_term(t):
         a, b = sorted((a, b), key=repr)
         return ("binop", t[1], a, b)
     return tuple(norm_term(x) if isinstance(x, tuple) else x for x in t)
+
+
+class Epilogue:
+    """How a Vt entry point reaches the per-call epilogue (report + gc + the
+    Changes value), directly or through a private helper of Vt."""
+
+    def __init__(self, w, S, api):
+        self.w, self.S, self.api = w, S, api
+        E = w.E
+        self.host = None
+        self.helper_site = None
+        if any(cs.callee in (S.changes_fn, S.gc_fn) for cs in E.call_sites(api)):
+            self.host = api
+        else:
+            for cs in E.call_sites(api):
+                if cs.local and S._impl_of(cs.callee) == WD.VT and any(c2.callee in (S.changes_fn, S.gc_fn) for c2 in E.call_sites(cs.callee)):
+                    self.host = cs.callee
+                    self.helper_site = cs
+
+    def site_in_api(self, target):
+        """The call site in the api function after which `target` has run."""
+        E = self.w.E
+        if self.host == self.api:
+            ss = [cs for cs in E.call_sites(self.api) if cs.callee == target]
+            return ss[0] if len(ss) == 1 else None
+        return self.helper_site
+
+    def on_every_path(self, target):
+        E = self.w.E
+        if self.host is None:
+            return False
+        hb = self.w.body(self.host)
+        ss = {cs.point for cs in E.call_sites(self.host) if cs.callee == target}
+        ok = bool(ss) and hb.every_path_to_return_hits((0, 0), ss, include_start=True)
+        if self.host != self.api:
+            ab = self.w.body(self.api)
+            ok = ok and ab.every_path_to_return_hits((0, 0), {self.helper_site.point}, include_start=True)
+        return ok
+
+    def changes_aggregate(self):
+        """(fn, point, {field: term}) of the vt::Changes value built by the epilogue."""
+        if self.host is None:
+            return None
+        b = self.w.body(self.host)
+        T = self.w.terms(self.host)
+        for bl in b.normal_blocks():
+            for i, st in enumerate(b.blocks[bl]["stmts"]):
+                if st["k"] == "assign" and st["rv"]["k"] == "aggregate" and st["rv"].get("adt") == "vt::Changes":
+                    return self.host, (bl, i), {nm: T.operand(op, (bl, i)) for nm, op in zip(st["rv"]["field_names"], st["rv"]["ops"])}
+        return None
+
+    def returned_unchanged(self):
+        """If a helper hosts the epilogue, the api returns the helper's value as is."""
+        if self.host == self.api or self.host is None:
+            return True
+        b = self.w.body(self.api)
+        T = self.w.terms(self.api)
+        rts = [WD.strip_names(T.local(0, (rb, b.n_stmts(rb)))) for rb in b.return_blocks()]
+        return all(t[0] == "call" and t[1] == self.host for t in rts)
